@@ -149,3 +149,89 @@ def declare(e):
             parts.append(f(v.t))
         return Val(BOOL, z3.Or(*parts))
     e.isinstance_hooks["PyExc"] = exc_isinstance
+
+
+def declare_io(e):
+    """Ghost file system observers, hashing, licensing library: assumed models of externals (trusted base)."""
+    import hashlib
+    import random
+    import reuse
+    from license_expression import Licensing
+    reg = e.reg
+    P = reg.sort(TAbs("Path"))
+    reg.declare("ref", "Hasher", fields={"data": "str"})
+
+    def path_obs(name, rng=BOOL):
+        def model(eng, s, recv, mname, args, kw, node):
+            f = eng.uf("fs_" + name, [P], reg.sort(rng))
+            return [(s, Val(rng, f(recv.t)))]
+        return model
+    for nm in ("is_file", "is_dir", "exists", "is_symlink"):
+        e.method_models[("Path", nm)] = path_obs(nm)
+
+    def m_md5(eng, s, args, kw, node):
+        ref = eng.fresh(reg.ty_of_class("Hasher"), "md5")
+        s = s.copy()
+        news = dict(s.ghost.get("__new__", {}))
+        news["Hasher"] = news.get("Hasher", []) + [ref.t]
+        s.ghost["__new__"] = news
+        eng.write_field(s, ref, "data", Val(STR, z3.StringVal("")))
+        return [(s, ref)]
+    e.func_models[hashlib.md5] = m_md5
+
+    def m_update(eng, s, recv, mname, args, kw, node):
+        cur = eng.read_field(s, recv, "data")
+        eng.write_field(s, recv, "data", Val(STR, z3.Concat(cur.t, args[0].t)))
+        return [(s, Val(NONE, None))]
+    e.method_models[("Hasher", "update")] = m_update
+
+    def m_hexdigest(eng, s, recv, mname, args, kw, node):
+        f = eng.uf("md5hex", [z3.StringSort()], z3.StringSort())
+        return [(s, Val(STR, f(eng.read_field(s, recv, "data").t)))]
+    e.method_models[("Hasher", "hexdigest")] = m_hexdigest
+
+    def m_getrandbits(eng, s, args, kw, node):
+        return [(s, eng.fresh(INT, "random_bits"))]
+    e.func_models[random.getrandbits] = m_getrandbits
+
+    # license_expression: keys(expr) is an uninterpreted finite set of identifiers; license_keys enumerates it
+    def m_license_keys(eng, s, args, kw, node):
+        expr = args[1]
+        f = eng.uf("ghost_license_keys", [reg.sort(TAbs("Expr"))], reg.sort(TSet(STR)))
+        return [(s, eng.enumeration_of(Val(TSet(STR), f(expr.t))))]
+    e.func_models[Licensing.license_keys] = m_license_keys
+
+
+def declare_licensing(e):
+    from license_expression import Licensing, ExpressionError
+    reg = e.reg
+    E = reg.sort(TAbs("Expr"))
+
+    def m_parse(eng, s, args, kw, node):
+        """Licensing.parse(text): Expr = parse_expr(text) when parseable(text), else raises ExpressionError
+        (ParseError is handled alike at every call site).  Assumption: ' AND '.join('(e)' ...) over rendered
+        expressions is parseable."""
+        txt = args[1]
+        if txt.is_py:
+            txt = eng.lift(txt.t)
+        if txt.ty.kind == "opt":
+            raise Unsupported("Licensing.parse of Optional")
+        ok = eng.uf("parseable", [z3.StringSort()], z3.BoolSort())(txt.t)
+        if z3.is_app(txt.t) and txt.t.decl().name() == "str_join":
+            ok = z3.BoolVal(True)
+        t, f = eng.branch(s, ok, "parseable")
+        if f is not None:
+            eng.raise_(f, ExpressionError, where=node)
+        if t is None:
+            return []
+        pe = eng.uf("parse_expr", [z3.StringSort()], E)
+        return [(t, Val(TAbs("Expr"), pe(txt.t)))]
+    e.func_models[Licensing.parse] = m_parse
+
+    def m_expr_method(eng, s, recv, name, args, kw, node):
+        if name == "simplify":
+            return [(s, Val(TAbs("Expr"), eng.uf("expr_simplify", [E], E)(recv.t)))]
+        if name == "render":
+            return [(s, Val(STR, eng.uf("expr_render", [E], z3.StringSort())(recv.t)))]
+        raise Unsupported(f"Expr.{name}")
+    e.method_models[("Expr", "*")] = m_expr_method
